@@ -6221,6 +6221,7 @@ Section run_fn.
     fp_new : forall n, inGen s7 b n -> ~ has s n;
     fp_old : forall n, n ∈ oldNodes -> has s n /\ scope (nd s6 n) = Some b /\ valid (nd s6 n) = true;
     fp_oldnd : forall n, has s n -> struct_eq (nd s6 n) (nd s n);
+    fp_has : forall n, has s n -> has s6 n;
     fp_sreg : forall m b', inGraph (nd s6 m) = true -> scope (nd s6 m) = Some b' -> inGraph (nd s6 b') = true;
     fp_main : inGraph (nd s6 (S b)) = true;
     fp_lhs : inGraph (nd s6 b) = true /\ nkind (nd s6 b) = KBindLhs b;
@@ -6422,6 +6423,7 @@ Section run_fn.
       split; [exact Hn1|]. rewrite Hnd6, (Hold3 n Hn1). destruct (Hst2 n) as (_&_&->&_&_&_&_&_&->&_).
       split; [exact Hn2|]. rewrite (V3 n b); [exact Hvb|]. unfold inGen, bd. rewrite Hr0. exact Hn.
     - intros n Hn. rewrite Hnd6, (Hold3 n Hn). apply Hst2.
+    - intros n Hn. apply Hhas6, (eb_has1 _ _ _ E23), Hhas2, Hn.
     - intros m b'. rewrite !Hnd6, !Hg3. intros Hm Hs. rewrite (Hsc3 m (has_inGraph s m Hm)) in Hs.
       apply (Hsreg m b' Hm Hs).
     - rewrite Hnd6, Hg3.
@@ -7521,9 +7523,61 @@ Proof.
   intros Hq H. destruct fuel as [|fuel]; simpl in H; [discriminate|]. rewrite Hq in H. injection H as <-. reflexivity.
 Qed.
 
-Theorem bind_spec_holds : bind_spec (fun _ => True).
+(* kinds are static and nodes are never deleted *)
+Definition kstable (s s' : state) : Prop :=
+  forall m, has s m -> has s' m /\ nkind (nd s' m) = nkind (nd s m).
+
+Lemma kstable_refl s : kstable s s.
+Proof. intros m Hm. auto. Qed.
+
+Lemma kstable_trans s1 s2 s3 : kstable s1 s2 -> kstable s2 s3 -> kstable s1 s3.
 Proof.
-  intros fuel p s b s' e _ P Hp Hk Hg H.
+  intros A B m Hm. destruct (A m Hm) as [H2 E2]. destruct (B m H2) as [H3 E3]. split; [exact H3|congruence].
+Qed.
+
+Lemma kstable_struct s s' : same_struct s s' -> kstable s s'.
+Proof. intros SS m Hm. split; [apply (ss_has _ _ SS), Hm|apply (ss_node _ _ SS m)]. Qed.
+
+(* an error of a user-function invocation is an injected fault of the plan *)
+Lemma applyActions_fault acts : forall s s' f0 f,
+  rfold (fun '(s, f) a =>
+           match f with
+           | Some _ => Ok (s, f)
+           | None =>
+             match a with
+             | AFail k => Ok (s, Some k)
+             | ASet v x => s <-! varSet s v x; Ok (s, None)
+             | AUpdate v d => s <-! varUpdate s v d; Ok (s, None)
+             end
+           end) acts (s, f0) = Ok (s', f) -> f = f0 \/ exists k, f = Some k /\ AFail k ∈ acts.
+Proof.
+  induction acts as [|a acts IH]; intros s s' f0 f H; simpl in H.
+  - injection H as _ <-. left. reflexivity.
+  - apply rbind_ok in H as ([s1 f1] & H1 & H).
+    destruct (IH s1 s' f1 f H) as [->|(k & -> & Hk)]; [|right; exists k; split; [reflexivity|right; exact Hk]].
+    destruct f0; [injection H1 as _ <-; left; reflexivity|]. destruct a as [k|v x|v d].
+    + injection H1 as _ <-. right. exists k. split; [reflexivity|left].
+    + apply rbind_ok in H1 as (s2 & _ & [= _ <-]). left. reflexivity.
+    + apply rbind_ok in H1 as (s2 & _ & [= _ <-]). left. reflexivity.
+Qed.
+
+Lemma invoke_fault p s n w s' x :
+  invoke p s n w = Ok (s', Some x) ->
+  (x = EUser n \/ x = EPanic n) /\ exists k, AFail k ∈ actions_of p n w.
+Proof.
+  intros H. unfold invoke in H. apply rbind_ok in H as ([s1 f] & H1 & H).
+  unfold applyActions in H1. destruct (applyActions_fault _ _ _ _ _ H1) as [->|(k & -> & Hk)]; [discriminate|].
+  split; [|eauto]. destruct k; injection H as _ <-; auto.
+Qed.
+
+Theorem bind_full fuel p s b s' e :
+  PInv s -> plan_ok s p = true -> nkind (nd s b) = KBindLhs b -> inGraph (nd s b) = true ->
+  bindLhsStabilize fuel p s b = Ok (s', e) ->
+  rejected_err e \/
+  (PInv s' /\ plan_ok s' p = true /\ stabNum s' = stabNum s /\ kstable s s' /\
+   (e = None \/ ((e = Some (EUser b) \/ e = Some (EPanic b)) /\ exists k, AFail k ∈ actions_of p b WFn))).
+Proof.
+  intros P Hp Hk Hg H.
   pose proof (p_kinds s P b (has_inGraph s b Hg)) as K. rewrite Hk in K. destruct K as [_ [r0 Hr0]].
   pose proof (p_binds s P b r0 Hr0) as W0.
   assert (Hbd : bd s b = r0) by (unfold bd; rewrite Hr0; reflexivity).
@@ -7547,7 +7601,8 @@ Proof.
     rewrite E.
     pose proof (soft_binds_irrel s s2 _ (binds s1) S12 eq_refl) as S02.
     split; [apply (PInv_of_soft s _ P S02)|]. split; [apply (plan_ok_struct s _ p (so_struct _ _ S02) Hp)|].
-    split; [apply (so_stabNum _ _ S02)|exact Logic.I].
+    split; [apply (so_stabNum _ _ S02)|]. split; [apply kstable_struct, (so_struct _ _ S02)|].
+    right. destruct (invoke_fault p s1 b WFn s2 x1 Hinv) as [[-> | ->] Hf]; (split; [auto|exact Hf]).
   - (* the bind function returned: instantiate the chosen template *)
     set (x := valueOf s1 (b_lhs r0)) in *.
     set (case := nth (Z.to_nat (x mod Z.of_nat (length (b_cases r0)))) (b_cases r0) TNil) in *.
@@ -7556,7 +7611,7 @@ Proof.
     assert (Hinst' : inst s2 (Some b) x (nth (Z.to_nat (x mod Z.of_nat (length (b_cases (bd s b))))) (b_cases (bd s b)) TNil) = (s3, root))
       by (rewrite Hbd; exact Hinst).
     pose proof (run_fn_post p s b P Hp Hk Hg s2 Hinv x s3 root Hinst') as FP.
-    destruct FP as [T6 R7 Hvc7 Hforce Hrhs Hdecl6 Hroot Hnew Hold Holdnd Hsreg6 Hmain [Hgb6 Hkb6] Holdne Hpair1 Hpair2 Hplan7 Hstab7].
+    destruct FP as [T6 R7 Hvc7 Hforce Hrhs Hdecl6 Hroot Hnew Hold Holdnd Hhas6 Hsreg6 Hmain [Hgb6 Hkb6] Holdne Hpair1 Hpair2 Hplan7 Hstab7].
     rewrite Hbd in *.
     set (s6 := updb (updb (emit (EvBindFn b x root) s3) b
                  (fun r => r <| b_gen := S (b_gen r) |> <| b_cache := if b_memo r then b_cache r ++ [(x, root)] else b_cache r |>))
@@ -7626,7 +7681,441 @@ Proof.
     + apply (plan_ok_kinds s7 t9 p); [| |exact Hplan7].
       * intros m. rewrite Hh9. apply (cpf_has _ _ F8).
       * intros m. rewrite Hk9. apply (cpf_node _ _ F8 m).
-    + split; [|exact Logic.I]. rewrite Hs9, (cpf_stabNum _ _ F8). exact Hstab7.
+    + split; [rewrite Hs9, (cpf_stabNum _ _ F8); exact Hstab7|]. split; [|left; reflexivity].
+      intros m Hm. split.
+      * apply Hh9, (cpf_has _ _ F8). unfold s7. apply has_upd. apply Hhas6, Hm.
+      * rewrite Hk9, Hk8. apply (Holdnd m Hm).
+Qed.
+
+Theorem bind_spec_holds : bind_spec (fun _ => True).
+Proof.
+  intros fuel p s b s' e _ P Hp Hk Hg H.
+  destruct (bind_full fuel p s b s' e P Hp Hk Hg H) as [Hr|(A & B & C & _)]; [left; exact Hr|right; auto].
+Qed.
+
+(* [bind_spec] for every predicate that only depends on the static part of the old nodes *)
+Definition kclosed (Q : state -> Prop) : Prop := forall s s', kstable s s' -> Q s -> Q s'.
+
+Lemma bind_spec_kclosed Q : kclosed Q -> bind_spec Q.
+Proof.
+  intros HQ fuel p s b s' e Hq P Hp Hk Hg H.
+  destruct (bind_full fuel p s b s' e P Hp Hk Hg H) as [Hr|(A & B & C & D & _)]; [left; exact Hr|right].
+  split; [exact A|]. split; [exact B|]. split; [exact C|apply (HQ s s' D Hq)].
+Qed.
+
+(** * ParallelStabilize: the same recomputations, one height block at a time *)
+
+(* nodes other than lhs-change nodes are never rejected *)
+Lemma stabilizeNode_norej fuel p s n s' e :
+  (forall b, nkind (nd s n) <> KBindLhs b) -> stabilizeNode fuel p s n = Ok (s', e) -> ~ rejected_err e.
+Proof.
+  intros Hk H. unfold stabilizeNode in H.
+  assert (Hinv : forall s1 e1 (k : state -> M),
+            invoke p s n WFn = Ok (s1, e1) ->
+            match e1 with Some e0 => fail s1 e0 | None => k s1 end = Ok (s', e) ->
+            (forall st, k st = Ok (s', e) -> e = None) -> ~ rejected_err e).
+  { intros s1 e1 k H1 H2 Hk'. destruct e1 as [e0|].
+    - apply fail_inv in H2 as [_ ->]. destruct (invoke_fault p s n WFn s1 e0 H1) as [[-> | ->] _]; intros [?|?]; discriminate.
+    - rewrite (Hk' s1 H2). intros [?|?]; discriminate. }
+  assert (Hok : forall st, ok st = Ok (s', e) -> ~ rejected_err e).
+  { intros st [_ ->]%ok_inv. intros [?|?]; discriminate. }
+  destruct (nkind (nd s n)) as [eqv| |f|f|f|c| |b|b] eqn:Ek.
+  - destruct (pending (nd s n)); [destruct (_ =? _)|]; apply (Hok _ H).
+  - apply (Hok _ H).
+  - apply rbind_ok in H as ([s1 e1] & H1 & H2).
+    apply (Hinv s1 e1 (fun s1 => ok (emit (EvInvoked n [valueOf s (hd 0%nat (decl (nd s n)))] (ap1 f (valueOf s (hd 0%nat (decl (nd s n)))))) (upd s1 n (set value (fun _ => ap1 f (valueOf s (hd 0%nat (decl (nd s n))))))))) H1 H2).
+    intros st [_ ->]%ok_inv. reflexivity.
+  - apply rbind_ok in H as ([s1 e1] & H1 & H2).
+    apply (Hinv s1 e1 (fun s1 => ok (emit (EvInvoked n [valueOf s (nth 0 (decl (nd s n)) 0%nat); valueOf s (nth 1 (decl (nd s n)) 0%nat)] (ap2 f (valueOf s (nth 0 (decl (nd s n)) 0%nat)) (valueOf s (nth 1 (decl (nd s n)) 0%nat)))) (upd s1 n (set value (fun _ => ap2 f (valueOf s (nth 0 (decl (nd s n)) 0%nat)) (valueOf s (nth 1 (decl (nd s n)) 0%nat))))))) H1 H2).
+    intros st [_ ->]%ok_inv. reflexivity.
+  - apply rbind_ok in H as ([s1 e1] & H1 & H2).
+    apply (Hinv s1 e1 (fun s1 => ok (emit (EvInvoked n (map (valueOf s) (decl (nd s n))) (apN f (map (valueOf s) (decl (nd s n))))) (upd s1 n (set value (fun _ => apN f (map (valueOf s) (decl (nd s n)))))))) H1 H2).
+    intros st [_ ->]%ok_inv. reflexivity.
+  - apply (Hok _ H).
+  - apply (Hok _ H).
+  - exfalso. apply (Hk b). reflexivity.
+  - apply (Hok _ H).
+Qed.
+
+Lemma par_children_soft l : forall s s',
+  rfold (fun s c => if shouldRecomputeChild s c then heapAdd s c else Ok s) l s = Ok s' -> soft s s'.
+Proof.
+  induction l as [|c l IH]; intros s s' H; simpl in H; [injection H as <-; apply soft_refl|].
+  apply rbind_ok in H as (s1 & H1 & H). eapply soft_trans; [|apply IH, H].
+  destruct (shouldRecomputeChild s c) eqn:E; [|injection H1 as <-; apply soft_refl].
+  apply (soft_heapAdd s c s1); [|exact H1].
+  unfold shouldRecomputeChild in E. destruct (inHeap s c); [discriminate|reflexivity].
+Qed.
+
+Section parnode.
+  Context (Q : state -> Prop) (HQ : forall s s', same_struct s s' -> Q s -> Q s') (HB : bind_spec Q).
+
+  Lemma recomputeNodeParallel_spec fuel p s n s' e :
+    Q s -> PInv s -> plan_ok s p = true -> inGraph (nd s n) = true ->
+    recomputeNodeParallel fuel p s n = Ok (s', e) ->
+    (rejected_err e \/ pass_ok Q p s s') /\
+    ((forall b, nkind (nd s n) <> KBindLhs b) -> ~ rejected_err e).
+  Proof.
+    intros Hq P Hp Hg H. unfold recomputeNodeParallel in H.
+    assert (Hst : status s = 1) by apply (pq_status s (p_pq s P)).
+    set (prev := recomputedAt (nd s n)) in *.
+    assert (Hprev : 0 <= prev <= stabNum s) by apply (st_le s (p_stamps s P) n).
+    set (s1 := upd s n (set recomputedAt (fun _ => stabNum s))) in *.
+    assert (S1 : soft s s1).
+    { apply soft_upd; intros x; [repeat split|]. intros Hk (A & B & C). repeat split; cbn; try lia; apply B || apply C. }
+    assert (K0 : pass_ok Q p s s) by (split; [exact P|split; [exact Hp|split; [reflexivity|exact Hq]]]).
+    assert (Hreg : forall st, soft s st -> inGraph (nd st n) = true).
+    { intros st S. destruct (ss_node _ _ (so_struct _ _ S) n) as (_&_&_&_&_&_&_&_&_&_&->). exact Hg. }
+    apply rbind_ok in H as ([[s2 e2] cut] & H2 & H).
+    assert (C2 : soft s s2 /\ ~ rejected_err e2).
+    { destruct (nkind (nd s n)) as [| | | | |c| | |] eqn:Ek; try (injection H2 as <- <- <-; split; [exact S1|intros [?|?]; discriminate]).
+      apply rbind_ok in H2 as ([s3 e3] & H3 & H2).
+      assert (Hst1 : status s1 = 1) by (rewrite (so_status _ _ S1); exact Hst).
+      pose proof (invoke_soft p s1 n WCut s3 e3 Hst1 (plan_ok_struct s s1 p (so_struct _ _ S1) Hp) H3) as S3.
+      assert (He3 : ~ rejected_err e3).
+      { destruct e3 as [x|]; [|intros [?|?]; discriminate].
+        destruct (invoke_fault p s1 n WCut s3 x H3) as [[-> | ->] _]; intros [?|?]; discriminate. }
+      destruct e3 as [e0|]; injection H2 as <- <- <-.
+      - split; [eapply soft_trans; eauto|exact He3].
+      - split; [|intros [?|?]; discriminate]. eapply soft_trans; [exact S1|]. eapply soft_trans; [exact S3|].
+        apply soft_emit. simpl. apply Hreg. eapply soft_trans; eauto. }
+    destruct C2 as [S2 He2].
+    (* failing: restore the stamp, queue again, run the error handlers *)
+    assert (Fail : forall st e0 st', pass_ok Q p s st ->
+               (s0 <-! recomputeFailed st n prev; Ok (errorHandlers s0 n, Some e0)) = Ok (st', e) ->
+               pass_ok Q p s st' /\ e = Some e0).
+    { intros st e0 st' K HF. apply rbind_ok in HF as (s0 & H0 & [= <- <-]).
+      destruct K as (K1 & K2 & K3 & K4).
+      split; [|reflexivity]. apply (pass_ok_soft Q HQ p s st); [split; auto|].
+      eapply soft_trans; [apply (recomputeFailed_soft Q HQ st n prev s0); [rewrite K3; exact Hprev|exact H0]|apply soft_errorHandlers]. }
+    (* a panic: the worker's recover *)
+    assert (Panic : forall st m st', pass_ok Q p s st ->
+               (s0 <-! heapAddIfNotPresent (upd st n (set recomputedAt (fun _ => 0))) n; Ok (errorHandlers s0 n, Some (EPanic m))) = Ok (st', e) ->
+               pass_ok Q p s st' /\ e = Some (EPanic m)).
+    { intros st m st' K HF. apply rbind_ok in HF as (s0 & H0 & [= <- <-]).
+      split; [|reflexivity]. apply (pass_ok_soft Q HQ p s st); [exact K|].
+      eapply soft_trans; [|eapply soft_trans; [apply (soft_heapAddIfNotPresent _ _ _ H0)|apply soft_errorHandlers]].
+      apply soft_upd; intros x; [repeat split|]. intros Hk (A & B & C). repeat split; cbn; try lia; apply B || apply C. }
+    assert (Nrej : forall x, e = Some (EUser x) \/ e = Some (EPanic x) -> ~ rejected_err e).
+    { intros x [-> | ->] [?|?]; discriminate. }
+    pose proof (pass_ok_soft Q HQ p s s s2 K0 S2) as K2.
+    destruct e2 as [e0|].
+    { destruct e0 as [| |x|x| | |]; try (exfalso; apply He2; unfold rejected_err; auto; fail).
+      - destruct (Fail s2 _ s' K2 H) as [K ->]. split; [right; exact K|intros _ [?|?]; discriminate].
+      - destruct (Panic s2 _ s' K2 H) as [K ->]. split; [right; exact K|intros _ [?|?]; discriminate].
+      - destruct (Fail s2 _ s' K2 H) as [K ->]. split; [right; exact K|intros _ [?|?]; discriminate].
+      - destruct (Fail s2 _ s' K2 H) as [K ->]. split; [right; exact K|intros _ [?|?]; discriminate].
+      - destruct (Fail s2 _ s' K2 H) as [K ->]. split; [right; exact K|intros _ [?|?]; discriminate]. }
+    destruct cut.
+    { injection H as <- <-. split; [right; exact K2|intros _ [?|?]; discriminate]. }
+    apply rbind_ok in H as ([s3 e3] & H3 & H).
+    destruct K2 as (P2 & Hp2 & Hn2 & Hq2).
+    assert (Hk2 : nkind (nd s2 n) = nkind (nd s n)) by apply (ss_node _ _ (so_struct _ _ S2) n).
+    assert (Hnr3 : (forall b, nkind (nd s n) <> KBindLhs b) -> ~ rejected_err e3).
+    { intros Hk. apply (stabilizeNode_norej fuel p s2 n s3 e3); [intros b; rewrite Hk2; apply Hk|exact H3]. }
+    destruct (stabilizeNode_spec Q HQ HB fuel p s2 n s3 e3 Hq2 P2 Hp2 (Hreg s2 S2) H3) as [Hrej|(P3 & Hp3 & Hn3 & Hq3)].
+    { destruct Hrej as [-> | ->]; apply rbind_ok in H as (s0 & _ & [= _ <-]);
+        (split; [left; unfold rejected_err; auto|intros Hk; exfalso; apply (Hnr3 Hk); unfold rejected_err; auto]). }
+    assert (K3 : pass_ok Q p s s3) by (split; [exact P3|split; [exact Hp3|split; [congruence|exact Hq3]]]).
+    destruct e3 as [e0|].
+    { destruct e0 as [| |x|x| | |].
+      - destruct (Fail s3 _ s' K3 H) as [K ->]. split; [right; exact K|intros Hk; exact (Hnr3 Hk)].
+      - destruct (Fail s3 _ s' K3 H) as [K ->]. split; [right; exact K|intros Hk; exact (Hnr3 Hk)].
+      - destruct (Fail s3 _ s' K3 H) as [K ->]. split; [right; exact K|intros _ [?|?]; discriminate].
+      - destruct (Panic s3 _ s' K3 H) as [K ->]. split; [right; exact K|intros _ [?|?]; discriminate].
+      - destruct (Fail s3 _ s' K3 H) as [K ->]. split; [right; exact K|intros _ [?|?]; discriminate].
+      - destruct (Fail s3 _ s' K3 H) as [K ->]. split; [right; exact K|intros _ [?|?]; discriminate].
+      - destruct (Fail s3 _ s' K3 H) as [K ->]. split; [right; exact K|intros _ [?|?]; discriminate]. }
+    (* success: stamp, handlers, children *)
+    set (s4 := insert_handler n (upd s3 n (set changedAt (fun _ => stabNum s3)))) in *.
+    assert (S4 : soft s3 s4).
+    { eapply soft_trans; [|apply soft_handlers].
+      apply soft_upd; intros x; [repeat split|]. intros Hk (A & B & C). repeat split; cbn; try lia; apply A || apply C. }
+    apply rbind_ok in H as (s5 & H5 & [= <- <-]).
+    pose proof (par_children_soft _ _ _ H5) as S5.
+    split; [right|intros _ [?|?]; discriminate].
+    apply (pass_ok_soft Q HQ p s s3 _ K3).
+    eapply soft_trans; [exact S4|]. eapply soft_trans; [exact S5|apply soft_insert_handlers].
+  Qed.
+End parnode.
+
+Lemma bind_spec_and_k Q sb : bind_spec Q -> bind_spec (fun s => Q s /\ kstable sb s).
+Proof.
+  intros HB fuel p s b s' e [Hq Hk0] P Hp Hk Hg H.
+  destruct (HB fuel p s b s' e Hq P Hp Hk Hg H) as [Hr|(A & B & C & D)]; [left; exact Hr|].
+  destruct (bind_full fuel p s b s' e P Hp Hk Hg H) as [Hr|(_ & _ & _ & K & _)]; [left; exact Hr|right].
+  split; [exact A|]. split; [exact B|]. split; [exact C|]. split; [exact D|apply (kstable_trans sb s s' Hk0 K)].
+Qed.
+
+Definition blockStep (fuel : nat) (p : plan) (acc : state * option err * list nid)
+  : nid -> res (state * option err * list nid) :=
+  let '(s, e, always) := acc in fun n =>
+  if height (nd s n) =? unset then Ok (s, e, always) else
+  '(s', e') <-! recomputeNodeParallel fuel p s n;
+  let always := if isAlways (nkind (nd s' n)) then always ++ [n] else always in
+  Ok (s', match e with Some _ => e | None => e' end, always).
+
+Lemma parLoop_S fuel p s always :
+  parLoop (S fuel) p s always =
+    if Heap.cnt (heap s) <=? 0 then Ok (s, None, always) else
+    let '(block, w) := Heap.takeMinBlock (heap s) in
+    let sb := s <| heap := w |> in
+    let isLhs n := match nkind (nd sb n) with KBindLhs _ => true | _ => false end in
+    '(s2, e, always) <-!
+       rfold (blockStep fuel p)
+             (filter (fun n => isLhs n = true) block ++ filter (fun n => isLhs n = false) block) (sb, None, always);
+    match e with
+    | Some _ => Ok (s2, e, always)
+    | None => parLoop fuel p s2 always
+    end.
+Proof. reflexivity. Qed.
+
+Section parloop.
+  Context (Q0 : state -> Prop) (HQ0 : forall s s', same_struct s s' -> Q0 s -> Q0 s') (HB0 : bind_spec Q0).
+  Context (bad : option err -> Prop) (Hbad0 : ~ bad None).
+  Context (p : plan) (s0 : state).
+  (* an lhs-change node either succeeds or ends the pass with a bad error *)
+  Hypothesis Hlhs : forall fuel st b st' e',
+    pass_ok Q0 p s0 st -> nkind (nd st b) = KBindLhs b -> inGraph (nd st b) = true ->
+    recomputeNodeParallel fuel p st b = Ok (st', e') -> e' = None \/ bad e'.
+
+  Definition Qb (sb : state) : state -> Prop := fun s => Q0 s /\ kstable sb s.
+
+  Local Lemma HQb sb : forall s s', same_struct s s' -> Qb sb s -> Qb sb s'.
+  Proof.
+    intros s s' SS [A B]. split; [apply (HQ0 s s' SS A)|apply (kstable_trans sb s s' B), kstable_struct, SS].
+  Qed.
+
+  Local Lemma HBb sb : bind_spec (Qb sb).
+  Proof. apply bind_spec_and_k, HB0. Qed.
+
+  Local Lemma pass_ok_weaken sb st : pass_ok (Qb sb) p s0 st -> pass_ok Q0 p s0 st.
+  Proof. intros (A & B & C & [D _]). split; [exact A|split; [exact B|split; [exact C|exact D]]]. Qed.
+
+  Notation blockStep fuel := (blockStep fuel p).
+
+  (* one node of a block, from a good state *)
+  Local Lemma block_node fuel sb st n st' e' :
+    pass_ok (Qb sb) p s0 st -> has sb n -> height (nd st n) <> unset ->
+    recomputeNodeParallel fuel p st n = Ok (st', e') ->
+    inGraph (nd st n) = true /\ nkind (nd st n) = nkind (nd sb n) /\
+    (rejected_err e' \/ pass_ok (Qb sb) p s0 st') /\
+    ((forall b, nkind (nd sb n) <> KBindLhs b) -> ~ rejected_err e').
+  Proof.
+    intros (P & Hp & Hn & Hq) Hhn Hh H.
+    assert (Hg : inGraph (nd st n) = true).
+    { apply (Inv_hreg st (t_zero _ _ _ (p_t st P)) (t_height _ _ _ (p_t st P)) n Hh). }
+    assert (Hk : nkind (nd st n) = nkind (nd sb n)) by apply (proj2 Hq n Hhn).
+    split; [exact Hg|]. split; [exact Hk|].
+    destruct (recomputeNodeParallel_spec (Qb sb) (HQb sb) (HBb sb) fuel p st n st' e' Hq P Hp Hg H) as [A B].
+    split; [|intros Hnl; apply B; intros b; rewrite Hk; apply Hnl].
+    destruct A as [A|(A1 & A2 & A3 & A4)]; [left; exact A|right].
+    split; [exact A1|split; [exact A2|split; [congruence|exact A4]]].
+  Qed.
+
+  Definition I1 (sb : state) (acc : state * option err * list nid) : Prop :=
+    bad acc.1.2 \/ (pass_ok (Qb sb) p s0 acc.1.1 /\ acc.1.2 = None).
+  Definition I2 (sb : state) (acc : state * option err * list nid) : Prop :=
+    bad acc.1.2 \/ pass_ok (Qb sb) p s0 acc.1.1.
+
+  Local Lemma bad_some e : bad e -> exists x, e = Some x.
+  Proof. destruct e; [eauto|]. intros H. destruct (Hbad0 H). Qed.
+
+  Lemma phase1 fuel sb : forall l acc acc',
+    (forall m, m ∈ l -> has sb m /\ exists b, nkind (nd sb m) = KBindLhs b) ->
+    I1 sb acc -> rfold (blockStep fuel) l acc = Ok acc' -> I1 sb acc'.
+  Proof.
+    induction l as [|m l IH]; intros acc acc' Hl HI H; simpl in H; [injection H as <-; exact HI|].
+    apply rbind_ok in H as (acc1 & H1 & H). apply (IH acc1 acc'); [intros m' Hm'; apply Hl; right; exact Hm'| |exact H].
+    clear H IH. destruct acc as [[st e] al]. unfold blockStep in H1.
+    destruct (Z.eqb_spec (height (nd st m)) unset) as [Hu|Hu]; [injection H1 as <-; exact HI|].
+    apply rbind_ok in H1 as ([st' e'] & Hr & [= <-]). unfold I1 in *. cbn [fst snd] in *.
+    destruct HI as [Hb|[K ->]].
+    { left. destruct (bad_some e Hb) as [x ->]. exact Hb. }
+    destruct (Hl m ltac:(left)) as [Hhm [b Hkb]].
+    destruct (block_node fuel sb st m st' e' K Hhm Hu Hr) as (Hg & Hk & A & _).
+    assert (Hkm : nkind (nd st m) = KBindLhs m).
+    { rewrite Hk, Hkb. destruct K as (P & _). pose proof (p_kinds st P m (has_inGraph st m Hg)) as Kk.
+      rewrite Hk, Hkb in Kk. destruct Kk as [-> _]. reflexivity. }
+    destruct (Hlhs fuel st m st' e' (pass_ok_weaken sb st K) Hkm Hg Hr) as [->|Hb]; [|left; exact Hb].
+    destruct A as [[?|?]|A]; [discriminate|discriminate|]. right. auto.
+  Qed.
+
+  Lemma phase2 fuel sb : forall l acc acc',
+    (forall m, m ∈ l -> has sb m /\ forall b, nkind (nd sb m) <> KBindLhs b) ->
+    I2 sb acc -> rfold (blockStep fuel) l acc = Ok acc' -> I2 sb acc'.
+  Proof.
+    induction l as [|m l IH]; intros acc acc' Hl HI H; simpl in H; [injection H as <-; exact HI|].
+    apply rbind_ok in H as (acc1 & H1 & H). apply (IH acc1 acc'); [intros m' Hm'; apply Hl; right; exact Hm'| |exact H].
+    clear H IH. destruct acc as [[st e] al]. unfold blockStep in H1.
+    destruct (Z.eqb_spec (height (nd st m)) unset) as [Hu|Hu]; [injection H1 as <-; exact HI|].
+    apply rbind_ok in H1 as ([st' e'] & Hr & [= <-]). unfold I2 in *. cbn [fst snd] in *.
+    destruct HI as [Hb|K].
+    { left. destruct (bad_some e Hb) as [x ->]. exact Hb. }
+    destruct (Hl m ltac:(left)) as [Hhm Hnl].
+    destruct (block_node fuel sb st m st' e' K Hhm Hu Hr) as (_ & _ & A & Hnr).
+    destruct A as [A|A]; [|right; exact A]. destruct (Hnr Hnl A).
+  Qed.
+
+  Lemma parLoop_spec fuel : forall s always s' e always',
+    pass_ok Q0 p s0 s -> parLoop fuel p s always = Ok (s', e, always') ->
+    bad e \/ pass_ok Q0 p s0 s'.
+  Proof.
+    induction fuel as [|fuel IH]; intros s always s' e always' K H; [discriminate|].
+    rewrite parLoop_S in H. destruct (Heap.cnt (heap s) <=? 0); [injection H as <- <- _; right; exact K|].
+    destruct (Heap.takeMinBlock (heap s)) as [block w] eqn:Etb. cbv zeta in H.
+    set (sb := s <| heap := w |>) in *.
+    destruct K as (P & Hp & Hn & Hq).
+    destruct (t_heap _ _ _ (p_t s P)) as [Hi Hqd].
+    destruct (takeMinBlock_spec (heap s) block w Hi Etb) as (Hi' & Pm & Hin).
+    assert (S1 : soft s sb).
+    { apply soft_only_heap; [apply only_heap_set|]. intros _ _. split; [exact Hi'|].
+      intros m Hm. assert (Hm' : m ∈ Heap.ids (heap s)) by (rewrite Pm; apply elem_of_app; right; exact Hm).
+      destruct (Hqd m Hm') as [A B]. split; [exact A|]. cbn. rewrite Hin.
+      pose proof (inv_nodup _ (hinv_inv _ Hi)) as Hnd. rewrite Pm in Hnd.
+      apply NoDup_app in Hnd as (_ & Hdis & _).
+      rewrite bool_decide_false by (intros Hx; apply (Hdis m Hx Hm)). exact B. }
+    assert (Kb : pass_ok (Qb sb) p s0 sb).
+    { destruct (pass_ok_soft Q0 HQ0 p s s sb ltac:(split; [exact P|split; [exact Hp|split; [reflexivity|exact Hq]]]) S1) as (A & B & C & D).
+      split; [exact A|split; [exact B|split; [congruence|split; [exact D|apply kstable_refl]]]]. }
+    assert (Hblock : forall m, m ∈ block -> has sb m).
+    { intros m Hm. assert (Hm' : m ∈ Heap.ids (heap s)) by (rewrite Pm; apply elem_of_app; left; exact Hm).
+      destruct (Hqd m Hm') as [A _]. apply (has_inGraph s m A). }
+    set (isLhs := fun n : nid => match nkind (nd sb n) with KBindLhs _ => true | _ => false end) in *.
+    apply rbind_ok in H as ([[s2 e2] always2] & H2 & H).
+    rewrite rfold_app in H2. apply rbind_ok in H2 as (acc1 & H21 & H22).
+    assert (J1 : I1 sb acc1).
+    { refine (phase1 fuel sb _ (sb, None, always) acc1 _ _ H21); [|right; split; [exact Kb|reflexivity]].
+      intros m [Hl Hm]%elem_of_list_filter. split; [apply Hblock, Hm|].
+      unfold isLhs in Hl. destruct (nkind (nd sb m)); try discriminate. eauto. }
+    assert (J2 : I2 sb (s2, e2, always2)).
+    { refine (phase2 fuel sb _ acc1 (s2, e2, always2) _ _ H22).
+      - intros m [Hl Hm]%elem_of_list_filter. split; [apply Hblock, Hm|].
+        intros b Eb. unfold isLhs in Hl. rewrite Eb in Hl. discriminate.
+      - destruct J1 as [A|[A _]]; [left; exact A|right; exact A]. }
+    unfold I2 in J2. cbn [fst snd] in J2.
+    destruct e2 as [x|].
+    - injection H as <- <- _. destruct J2 as [A|A]; [left; exact A|right; apply (pass_ok_weaken sb), A].
+    - destruct J2 as [A|A]; [destruct (Hbad0 A)|]. apply (IH s2 always2 s' e always' (pass_ok_weaken sb s2 A) H).
+  Qed.
+End parloop.
+
+Lemma par_requeue_soft l : forall s s',
+  rfold (fun s n => if (height (nd s n) =? unset) || inHeap s n then Ok s else heapAdd s n) l s = Ok s' ->
+  soft s s'.
+Proof.
+  induction l as [|n l IH]; intros s s' H; simpl in H; [injection H as <-; apply soft_refl|].
+  apply rbind_ok in H as (s1 & H1 & H). eapply soft_trans; [|apply IH, H].
+  destruct (height (nd s n) =? unset); simpl in H1; [injection H1 as <-; apply soft_refl|].
+  destruct (inHeap s n) eqn:E; [injection H1 as <-; apply soft_refl|apply (soft_heapAdd s n s1 E H1)].
+Qed.
+
+Section parstab.
+  Context (Q0 : state -> Prop) (HQ0 : forall s s', same_struct s s' -> Q0 s -> Q0 s') (HB0 : bind_spec Q0).
+  Context (bad : option err -> Prop) (Hbad0 : ~ bad None).
+
+  Lemma parStabilize_spec p s s' e :
+    (forall s0 fuel st b st' e',
+       pass_ok Q0 p s0 st -> nkind (nd st b) = KBindLhs b -> inGraph (nd st b) = true ->
+       recomputeNodeParallel fuel p st b = Ok (st', e') -> e' = None \/ bad e') ->
+    Inv s -> Q0 s -> plan_ok s p = true -> parStabilize p s = Ok (s', e) ->
+    bad e \/ (Inv s' /\ Q0 s').
+  Proof.
+    intros Hlhs HI Hq Hp H. unfold parStabilize in H.
+    rewrite (q_status s (inv_quiet s HI)) in H. simpl in H.
+    set (s1 := emit EvPassStart (s <| status := 1 |>)) in *.
+    pose proof (Inv_PInv_start s HI) as P1. fold s1 in P1.
+    assert (SS1 : same_struct s s1) by (apply same_struct_nodes; reflexivity).
+    assert (K1 : pass_ok Q0 p s1 s1).
+    { split; [exact P1|]. split; [apply (plan_ok_struct s s1 p SS1 Hp)|]. split; [reflexivity|apply (HQ0 s s1 SS1 Hq)]. }
+    apply rbind_ok in H as ([[s2 e2] always] & H2 & H).
+    destruct (parLoop_spec Q0 HQ0 HB0 bad Hbad0 p s1 (Hlhs s1) _ s1 [] s2 e2 always K1 H2) as [Hb|K2].
+    { apply rbind_ok in H as (s3 & _ & H). apply rbind_ok in H as (s4 & _ & [= _ <-]). left. exact Hb. }
+    apply rbind_ok in H as (s3 & H3 & H). apply rbind_ok in H as (s4 & H4 & [= <- <-]). right.
+    pose proof (par_requeue_soft always s2 s3 H3) as S3.
+    destruct (pass_ok_soft Q0 HQ0 p s1 s2 s3 K2 S3) as (P3 & _ & _ & Q3).
+    destruct (stabilizeEnd_spec s3 e2 s4 P3 H4) as [I4 SS4]. split; [exact I4|apply (HQ0 s3 s4 SS4 Q3)].
+  Qed.
+End parstab.
+
+(* the error of recomputing a lhs-change node is the error of its bind *)
+Lemma rnp_lhs fuel p s b s' e' :
+  nkind (nd s b) = KBindLhs b -> recomputeNodeParallel fuel p s b = Ok (s', e') ->
+  exists s3 e3,
+    bindLhsStabilize fuel p (upd s b (set recomputedAt (fun _ => stabNum s))) b = Ok (s3, e3) /\ e' = e3.
+Proof.
+  intros Hk H. unfold recomputeNodeParallel in H. rewrite Hk in H.
+  set (s1 := upd s b (set recomputedAt (fun _ => stabNum s))) in *.
+  rewrite rbind_Ok in H. cbv beta iota in H.
+  apply rbind_ok in H as ([s3 e3] & H3 & H). exists s3, e3.
+  assert (Hk1 : nkind (nd s1 b) = KBindLhs b).
+  { unfold s1. rewrite nd_upd_proj by reflexivity. exact Hk. }
+  unfold stabilizeNode in H3. rewrite Hk1 in H3. split; [exact H3|].
+  destruct e3 as [x|].
+  - destruct x; apply rbind_ok in H as (s0 & _ & [= _ <-]); reflexivity.
+  - apply rbind_ok in H as (s5 & _ & [= _ <-]). reflexivity.
+Qed.
+
+Lemma par_plan_clean_spec s p n k :
+  par_plan_clean s p = true -> AFail k ∈ actions_of p n WFn ->
+  has s n /\ forall b, nkind (nd s n) <> KBindLhs b.
+Proof.
+  intros Hc Hin. unfold actions_of in Hin. apply elem_of_list_omap in Hin as ([[m w'] a'] & Hin & Hsome).
+  unfold par_plan_clean in Hc. rewrite forallb_forall in Hc. apply elem_of_list_In in Hin. specialize (Hc _ Hin). simpl in Hc.
+  destruct (Nat.eqb_spec m n) as [->|]; [|discriminate]. destruct w'; simpl in Hsome; [|discriminate].
+  injection Hsome as ->. unfold has, nd. destruct (nodes s !! n) as [x|]; [|discriminate].
+  split; [eauto|]. simpl. intros b Eb. rewrite Eb in Hc. discriminate.
+Qed.
+
+(* under a clean plan a lhs-change node either succeeds or is rejected *)
+Lemma par_lhs_clean p sop :
+  par_plan_clean sop p = true ->
+  forall s0 fuel st b st' e',
+    pass_ok (kstable sop) p s0 st -> nkind (nd st b) = KBindLhs b -> inGraph (nd st b) = true ->
+    recomputeNodeParallel fuel p st b = Ok (st', e') -> e' = None \/ rejected_err e'.
+Proof.
+  intros Hc s0 fuel st b st' e' (P & Hp & Hn & Hq) Hk Hg H.
+  destruct (rnp_lhs fuel p st b st' e' Hk H) as (s3 & e3 & H3 & ->).
+  set (s1 := upd st b (set recomputedAt (fun _ => stabNum st))) in *.
+  assert (S1 : soft st s1).
+  { apply soft_upd; intros x; [repeat split|]. intros Hk' (A & B & C). repeat split; cbn; try lia; apply B || apply C. }
+  pose proof (PInv_of_soft st s1 P S1) as P1.
+  assert (Hk1 : nkind (nd s1 b) = KBindLhs b) by (unfold s1; rewrite nd_upd_proj by reflexivity; exact Hk).
+  assert (Hg1 : inGraph (nd s1 b) = true) by (unfold s1; rewrite nd_upd_proj by reflexivity; exact Hg).
+  destruct (bind_full fuel p s1 b s3 e3 P1 (plan_ok_struct st s1 p (so_struct _ _ S1) Hp) Hk1 Hg1 H3)
+    as [Hr|(_ & _ & _ & _ & [->|[_ [k Hf]]])]; [right; exact Hr|left; reflexivity|].
+  exfalso. destruct (par_plan_clean_spec sop p b k Hc Hf) as [Hhb Hnl].
+  destruct (Hq b Hhb) as [_ E]. apply (Hnl b). rewrite <- E. exact Hk.
+Qed.
+
+Lemma kclosed_kstable sop : kclosed (kstable sop).
+Proof. intros s s' K H. apply (kstable_trans sop s s' H K). Qed.
+
+Definition is_parstabilize (o : op) : bool := match o with ParStabilize _ => true | _ => false end.
+
+Theorem Inv_step_parstabilize s o s' e :
+  Inv s -> op_ok s o = true -> op_clean s o = true -> is_parstabilize o = true -> step s o = Ok (s', e) ->
+  e <> Some ECycle -> e <> Some EHeightLimit -> Inv s'.
+Proof.
+  intros HI Hok Hcl Hgo Hstep He1 He2. destruct o; try discriminate. simpl in Hstep, Hok, Hcl.
+  destruct (parStabilize_spec (kstable s) (fun a b SS H => kstable_trans s a b H (kstable_struct a b SS))
+              (bind_spec_kclosed _ (kclosed_kstable s)) rejected_err ltac:(intros [?|?]; discriminate)
+              p s s' e (par_lhs_clean p s Hcl) HI (kstable_refl s) Hok Hstep) as [[->| ->]|[R _]];
+    [congruence|congruence|exact R].
+Qed.
+
+(* without bind records there is no lhs-change node: no side condition on the plan *)
+Theorem Inv_step_parstabilize_bindfree s o s' e :
+  Inv s -> binds s = ∅ -> op_ok s o = true -> is_parstabilize o = true -> step s o = Ok (s', e) ->
+  Inv s' /\ binds s' = ∅.
+Proof.
+  intros HI Hb Hok Hgo Hstep. destruct o; try discriminate. simpl in Hstep, Hok.
+  destruct (parStabilize_spec bindfree
+              ltac:(intros a b SS H; unfold bindfree; rewrite (ss_binds _ _ SS); exact H)
+              bind_spec_bindfree (fun _ => False) ltac:(auto) p s s' e) as [[]|R]; auto.
+  intros s0 fuel st b st' e' (P & _ & _ & Hq) Hk Hg _. exfalso.
+  pose proof (p_kinds st P b (has_inGraph st b Hg)) as K. rewrite Hk in K. destruct K as [_ [r Hr]].
+  unfold bindfree in Hq. rewrite Hq, lookup_empty in Hr. discriminate.
 Qed.
 
 From stdpp Require Import sorting.
@@ -7816,6 +8305,7 @@ Proof.
   - apply (Inv_step_removeinput s _ s' e HI Hok eq_refl Hstep).
   - apply (Inv_step_stabilize_gen (fun _ => True) s _ s' e ltac:(auto) HB HI I Hok eq_refl Hstep He1 He2).
   - apply (Inv_step_stabilize_gen (fun _ => True) s _ s' e ltac:(auto) HB HI I Hok eq_refl Hstep He1 He2).
+  - apply (Inv_step_parstabilize s _ s' e HI Hok Hcl eq_refl Hstep He1 He2).
 Qed.
 
 (* the earlier conditional form, kept for clients *)
@@ -8010,8 +8500,9 @@ Proof.
   destruct (step s o) as [[s1 e]| |] eqn:Es; try discriminate.
   destruct (rejected e) eqn:Er; [discriminate|]. destruct (rejected_not e Er) as [He1 He2].
   assert (R : Inv s1 /\ binds s1 = ∅).
-  { destruct (is_stabilize o) eqn:Est.
+  { destruct (is_stabilize o) eqn:Est; [|destruct (is_parstabilize o) eqn:Epar].
     - apply (Inv_step_stabilize_bindfree s o s1 e HI Hb Hok Est Es He1 He2).
+    - apply (Inv_step_parstabilize_bindfree s o s1 e HI Hb Hok Epar Es).
     - assert (Hk : keeps_binds o = true) by (destruct o; try reflexivity; try discriminate; simpl in Hcl; discriminate).
       split; [|rewrite (step_binds s o s1 e Hk Es); exact Hb].
       destruct o; try discriminate; try (simpl in Hcl; discriminate).
@@ -8275,6 +8766,35 @@ Proof.
 Qed.
 
 (* non-vacuity: a clean history with binds (nested, re-run, released) *)
+(* ParallelStabilize keeps the first error of a height block: the user error of one bind (node 1)
+   masks the height-limit rejection of the bind next to it (node 3); result class XUser, ill-formed *)
+Definition h_par_masked : list op :=
+  [NewVar 0 false; NewBind [TX; TRet 5] 0%nat;
+   NewBind [TX; TMap (Aff 1 1) (TMap (Aff 1 1) (TMap (Aff 1 1) (TMap (Aff 1 1) TX)))] 0%nat;
+   Observe 2%nat; Observe 4%nat; Stabilize []; SetVar 0%nat 1; ParStabilize [(1%nat, WFn, AFail FErr)]].
+
+Theorem par_masked_rejection_refuted : exists os s, run_unrejected (init 6) os = Some s /\ wfb s = false.
+Proof.
+  exists h_par_masked.
+  assert (H : match run_unrejected (init 6) h_par_masked with Some s => negb (wfb s) | None => false end = true) by (vm_compute; reflexivity).
+  remember (run_unrejected (init 6) h_par_masked) as r eqn:E. destruct r as [s|]; [|discriminate H].
+  exists s. split; [reflexivity|]. destruct (wfb s); [discriminate H|reflexivity].
+Qed.
+
+(* a clean history mixing both stabilizers, with binds, rebuilds and injected faults *)
+Definition h_both : list op :=
+  [NewVar 1 false; NewBind [TMap (Aff 1 1) TX; TBind [TRet 3; TX] (TMap (Aff 2 1) TX)] 0%nat; NewMap (Aff 1 1) 0%nat;
+   Observe 2%nat; Observe 3%nat;
+   ParStabilize [(3%nat, WFn, AFail FErr)]; SetVar 0%nat 2; ParStabilize []; SetVar 0%nat 3; Stabilize []; SetVar 0%nat 4;
+   ParStabilize [(3%nat, WFn, AFail FPanic)]; Unobserve 4%nat].
+
+Theorem clean_history_both_stabilizers : exists s, run_clean (init 16) h_both = Some s /\ wfb s = true.
+Proof.
+  assert (H : match run_clean (init 16) h_both with Some s => wfb s | None => false end = true) by (vm_compute; reflexivity).
+  remember (run_clean (init 16) h_both) as r eqn:E. destruct r as [s|]; [|discriminate H].
+  exists s. split; [reflexivity|exact H].
+Qed.
+
 Definition h_binds : list op :=
   [NewVar 1 false; NewBind [TMap (Aff 1 1) TX; TBind [TRet 3; TX] (TMap (Aff 2 1) TX)] 0%nat; Observe 2%nat;
    Stabilize []; SetVar 0%nat 2; Stabilize []; SetVar 0%nat 3; Stabilize []; Unobserve 3%nat].
